@@ -121,6 +121,7 @@ def run_task(job):
                 "meta": ob.meta,
                 "trace": ob.path[-12:],
                 "nhyps": len(ob.hyps),
+                "config": cfg,
             }
             out["solver_time"] += r["time"]
             failing = (r["result"] == "sat") and ob.kind != "vacuity"
@@ -161,6 +162,9 @@ def matches_finding(kf, prop, rec):
     for k, v in w.items():
         if k == "site_function":
             if v not in str(rec.get("site") or meta.get("site") or ""):
+                return False
+        elif k.startswith("config_"):
+            if str((rec.get("config") or {}).get(k[7:])) != str(v):
                 return False
         elif k == "trace_contains":
             tr = " ".join(rec.get("full_trace") or rec.get("trace") or [])
